@@ -495,9 +495,37 @@ Proof.
   - intros s c user sc H. apply H2 in H as [H _]. exact H.
 Qed.
 
+(* ---- the globs registered for the authorization redirect_uri play no part ---- *)
+Definition with_auth_globs (g : list string) (c : lclient) : lclient :=
+  {| l_id := l_id c; l_post := l_post c; l_globs := l_globs c; l_auth_globs := g |}.
+
+Lemma find_lclient_reglob (f : lclient -> list string) cs id :
+  find_lclient (map (fun c => with_auth_globs (f c) c) cs) id =
+  option_map (fun c => with_auth_globs (f c) c) (find_lclient cs id).
+Proof.
+  unfold find_lclient. induction cs as [|c cs IH]; [reflexivity|]. cbn [map find with_auth_globs l_id].
+  destruct (String.eqb (l_id c) id); [reflexivity|exact IH].
+Qed.
+
+(* whatever RedirectURIGlobs() the clients have - replace them by anything - every answer of the
+   endpoint is the same: only l_post and the post-logout globs decide *)
+Theorem auth_globs_irrelevant pmatch uparse d ts cs (f : lclient -> list string) r q :
+  end_session pmatch uparse d ts (map (fun c => with_auth_globs (f c) c) cs) r q =
+  end_session pmatch uparse d ts cs r q.
+Proof.
+  assert (V : validate_end_session pmatch uparse d (map (fun c => with_auth_globs (f c) c) cs) q =
+              validate_end_session pmatch uparse d cs q).
+  { unfold validate_end_session. destruct (proven q) as [e|[user cid]]; [reflexivity|].
+    destruct (String.eqb cid ""); [reflexivity|].
+    unfold lookup. destruct (e_fault q); try reflexivity;
+      rewrite find_lclient_reglob; destruct (find_lclient cs cid) as [c|]; reflexivity. }
+  destruct r; cbn [end_session]; unfold end_session_provider, end_session_legacy; rewrite V; reflexivity.
+Qed.
+
 (* ---- non-vacuity ---- *)
 Definition ex_cs : list lclient :=
-  [{| l_id := "web"; l_post := ["https://app.example.com/bye"]; l_globs := Some ["https://app.example.com/out/*"] |}].
+  [{| l_id := "web"; l_post := ["https://app.example.com/bye"]; l_globs := Some ["https://app.example.com/out/*"];
+      l_auth_globs := ["https://app.example.com/cb/*"; "https://evil.example/*"] |}].
 Definition ex_pm (g u : string) : pres := if String.eqb u "https://app.example.com/out/x" then PMatch else PNoMatch.
 Definition ex_up (u : string) : option purl := Some {| p_pre := u; p_le := []; p_gt := []; p_frag := None |}.
 
@@ -538,4 +566,12 @@ Example C18_nonvacuous_sequence_extras :
             rq [("client_id", "other"); ("client_id", "web"); ("ui_locales", "de")]])
   = OEnd [ERedirect "/logged-out?state=s1" ("alice", "web"); ERedirect "/logged-out?state=s2" ("alice", "web");
           ERedirect "/logged-out" ("alice", "web")].
+Proof. vm_compute. reflexivity. Qed.
+
+(* a URI that matches only an AUTHORIZATION-redirect glob of the client is not registered for logout *)
+Example C18_nonvacuous_auth_glob_only :
+  end_session (fun g u => if String.eqb g "https://app.example.com/cb/*" then PMatch else PNoMatch) ex_up
+    "/logged-out" TS_Absent ex_cs Provider
+    {| e_hint := HNone; e_client := "web"; e_uri := "https://app.example.com/cb/x"; e_state := ""; e_fault := EF_None |}
+  = EPage 400 "invalid_request" None.
 Proof. vm_compute. reflexivity. Qed.
